@@ -143,17 +143,8 @@ def _replay_group(cases):
     return dict(res=out, stats=rp.stats)
 
 
-def run(rep):
-    global _PREDS, _DEADLINE
-    quick = rep.tier == 'quick'
-    rng = random.Random(rep.seed)
-    jobs = plan(rep.tier, rep.seed)
-    budget = 45 if quick else 600     # seconds of replay
-    rep.constants['Topo'] = ('bases line3/line3p/rect22/rect32p/mp21/tri1/mix2/mul22 (+ periodic line2p), depth L<=2: every denotation reachable by 1 operation '
-                             'exhaustively; simulation to 3 operations' if quick else
-                             'line/rect/connected/product bases, L<=3: every denotation reachable by 2 operations exhaustively (3 on line3); simulation to 6 operations')
-
-    # ---- TLC design runs, concurrently; the witnesses are evaluated meanwhile
+def generate(rep, jobs, rng, limit):
+    """run the TLC design jobs; -> (behaviours chosen for replay incl. the witnesses, predictions by state key)"""
     with concurrent.futures.ThreadPoolExecutor(max_workers=len(jobs) + 1) as pool:
         futures = [pool.submit(_run_job, item) for item in jobs.items()]
         wfut = pool.submit(evaluate, WITNESSES, 'witness', 1)
@@ -164,7 +155,6 @@ def run(rep):
         rep.add_tlc(wres)
 
     behaviours = collections.OrderedDict()      # key -> dict(base, L, hist)
-    need_eval = []
     for name, res in results.items():
         exhaustive = jobs[name][2]
         if name.startswith('mutant-'):
@@ -179,7 +169,7 @@ def run(rep):
         for e in res.emitted:
             key = _hkey(e['base'], e['L'], e['hist'])
             if key not in behaviours:
-                behaviours[key] = dict(base=e['base'], L=e['L'], hist=e['hist'], src=name)
+                behaviours[key] = dict(base=e['base'], L=e['L'], hist=e['hist'])
             if 'pred' in e:
                 preds[key] = e['pred']
     cov = results['ex1'].coverage
@@ -205,7 +195,6 @@ def run(rep):
             order.append(strata[k].pop())
             if not strata[k]:
                 del strata[k]
-    limit = 260 if quick else 2600
     chosen = order[:limit]
     rep.extra['behaviours_generated'] = len(leaves)
     # predictions that the design runs did not emit (exhaustive runs identify states by denotation, so a prefix of a
@@ -216,16 +205,19 @@ def run(rep):
         preds.update(p2)
         rep.add_tlc(r2)
         rep.lap('tlc evaluation of {} behaviours'.format(len(lack)))
-    cases = list(WITNESSES) + chosen
+    for b in chosen[:3]:
+        rep.sample(dict(base=b['base'], L=b['L'], operations=[[o['op'], o['a'], o['S'], o['T']] for o in b['hist']]))
+    return list(WITNESSES) + chosen, preds
 
-    # ---- S->C replay in NPROC processes; groups share their first operation (prefix cache)
+
+def replay(rep, cases, preds, budget):
+    """S->C replay in NPROC processes; behaviours that share their first operation go to one task (prefix cache)"""
+    global _PREDS, _DEADLINE
     groups = collections.OrderedDict()
     for c in cases:
         groups.setdefault((c['base'], c['L'], json.dumps(c['hist'][0], sort_keys=True)), []).append(c)
-    glist = list(groups.values())
-    # witnesses first, then big groups split so that the pool stays busy
     tasks = []
-    for g in glist:
+    for g in groups.values():
         for i in range(0, len(g), 6):
             tasks.append(g[i:i + 6])
     _PREDS = preds
@@ -255,9 +247,20 @@ def run(rep):
         rep.skip('behaviours not replayed within the time budget', skipped)
     rep.extra['replayed'] = dict(stats)
     rep.extra['operations_replayed'] = dict(opcount)
-    for b in chosen[:3]:
-        rep.sample(dict(base=b['base'], L=b['L'], operations=[[o['op'], o['a'], o['S'], o['T']] for o in b['hist']]))
     rep.lap('replay')
+
+
+def run(rep):
+    quick = rep.tier == 'quick'
+    rng = random.Random(rep.seed)
+    jobs = plan(rep.tier, rep.seed)
+    # seconds of replay after the TLC runs (VF_C10_BUDGET overrides, for heavily loaded machines)
+    budget = float(os.environ.get('VF_C10_BUDGET') or (45 if quick else 600))
+    rep.constants['Topo'] = ('bases line3/line3p/rect22/rect32p/mp21/tri1/mix2/mul22 (+ periodic line2p), depth L<=2: every denotation reachable by 1 operation '
+                             'exhaustively; simulation to 3 operations' if quick else
+                             'line/rect/connected/product bases, L<=3: every denotation reachable by 2 operations exhaustively (3 on line3); simulation to 6 operations')
+    cases, preds = generate(rep, jobs, rng, 260 if quick else 2600)
+    replay(rep, cases, preds, budget)
 
     rep.rule = ('cases = states of replayed behaviours (base mesh + history of topology operations), each compared with the model in elements, '
                 'measures, boundary facet atoms, interior facet atoms (and complement + cut after a trim); non-trivial: at least 2 operations')
